@@ -663,14 +663,14 @@ theorem R_init : R init {} :=
   ⟨rfl, rfl, rfl, rfl, rfl, rfl, ⟨rfl, pingsWaiting_init⟩, ⟨[], ti_new, fun k => by simp [keysS, keysH]⟩,
     ⟨fun r hr => (by cases hr), fun r hr => (by cases hr), fun r hr => (by cases hr)⟩⟩
 
-/-- the events the refinement theorem admits, decided on the *specification's* state: exactly the
-recorded exclusions (E5 early acknowledgement; B3 `good`; caller-supplied non-zero identifiers) and
+/-- the simple events the refinement theorem admits, decided on the *specification's* state: exactly the
+recorded exclusions (B3 `good`; caller-supplied non-zero identifiers) and
 the peer keeping to the protocol where the property is silent (valid topic names and QoS in inbound
 PUBLISHes, SUBACK return codes 0/1/2/0x80, no PUBREC after the PUBCOMP of the same exchange, subscribed
 filters valid and pairwise different within a request). -/
-def okStep (s : S) : Ev → Bool
+def okStepB (s : S) : Ev → Bool
   | .connect _ => true
-  | .apiEarlyAck _ _ => false
+  | .apiEarlyAck _ _ => false          -- composite: see `okStep`
   | .api (.publish p _) => p.qos == 0 || p.pktid != 0
   | .api (.subscribe id topics _ _) =>
     id != 0 && decide ((topics.map (fun (t : Bytes × Nat) => t.1)).Nodup) &&
@@ -682,6 +682,14 @@ def okStep (s : S) : Ev → Bool
   | .peer (.pubrec id) => s.pubs2.all (fun r => r.id != id || !r.done)
   | .peer (.suback _ codes) => codes.all okCode
   | .peer _ => true
+
+/-- … and the composite event (an acknowledgement arriving between the write and the registration
+of a call: since the repair of E5 it is the call followed by the packet) is admitted iff the call is
+and then the packet is -/
+def okStep (s : S) : Ev → Bool
+  | .apiEarlyAck call ack =>
+    okStepB s (.api call) && okStepB (Mqtt.Spec.Client.step s (.api call)).1 (.peer ack)
+  | ev => okStepB s ev
 
 /-- a history all of whose events are admitted -/
 def Ok (s : S) : List Ev → Bool
@@ -744,7 +752,7 @@ theorem spec_step_peer (s : S) (hs : s.connected = true) (p : Packet) :
   simp [Mqtt.Spec.Client.step, hs]
 
 theorem sim_api_publish (c : C) (s : S) (hR : R c s) (hc : c.connected = true) (p : Pub) (tag : Nat)
-    (hok : okStep s (.api (.publish p tag)) = true) :
+    (hok : okStepB s (.api (.publish p tag)) = true) :
     R (step c (.api (.publish p tag))).1 (Mqtt.Spec.Client.step s (.api (.publish p tag))).1 ∧
     EvMatch (Mqtt.Spec.Client.step s (.api (.publish p tag))).2 (step c (.api (.publish p tag))).2 := by
   have hs : s.connected = true := by rw [← hR.conn]; exact hc
@@ -756,7 +764,7 @@ theorem sim_api_publish (c : C) (s : S) (hR : R c s) (hc : c.connected = true) (
     exact (EvMatch.single _ rfl).append (EvMatch.completeOut tag false)
   · have hb0 : (p.qos == 0) = false := by simpa using h0
     have hid : p.pktid ≠ 0 := by
-      simp only [okStep, hb0, Bool.false_or, bne_iff_ne, ne_eq] at hok
+      simp only [okStepB, hb0, Bool.false_or, bne_iff_ne, ne_eq] at hok
       exact hok
     have hidb : (p.pktid == 0) = false := by simpa using hid
     have hp : ({ p with pktid := p.pktid } : Pub) = p := by cases p; rfl
@@ -778,13 +786,13 @@ theorem sim_api_publish (c : C) (s : S) (hR : R c s) (hc : c.connected = true) (
       exact hR.pub2.wait _ _ (by simp [Proj.fm, Proj.fs, Ptag, terminal_zero])
 
 theorem sim_api_subscribe (c : C) (s : S) (hR : R c s) (hc : c.connected = true) (id : Nat)
-    (topics : List (Bytes × Nat)) (tag cb : Nat) (hok : okStep s (.api (.subscribe id topics tag cb)) = true) :
+    (topics : List (Bytes × Nat)) (tag cb : Nat) (hok : okStepB s (.api (.subscribe id topics tag cb)) = true) :
     R (step c (.api (.subscribe id topics tag cb))).1 (Mqtt.Spec.Client.step s (.api (.subscribe id topics tag cb))).1 ∧
     EvMatch (Mqtt.Spec.Client.step s (.api (.subscribe id topics tag cb))).2
       (step c (.api (.subscribe id topics tag cb))).2 := by
   have hs : s.connected = true := by rw [← hR.conn]; exact hc
   rw [step_api c hc, spec_step_api s hs]
-  simp only [okStep, Bool.and_eq_true, bne_iff_ne, ne_eq, decide_eq_true_eq, List.all_eq_true] at hok
+  simp only [okStepB, Bool.and_eq_true, bne_iff_ne, ne_eq, decide_eq_true_eq, List.all_eq_true] at hok
   obtain ⟨⟨hid, hnd⟩, hall⟩ := hok
   have hidb : (id == 0) = false := by simpa using hid
   have hw : apiWrite c (.subscribe id topics tag cb) =
@@ -807,13 +815,13 @@ theorem sim_api_subscribe (c : C) (s : S) (hR : R c s) (hc : c.connected = true)
       simpa using this
 
 theorem sim_api_unsubscribe (c : C) (s : S) (hR : R c s) (hc : c.connected = true) (id : Nat)
-    (topics : List Bytes) (tag : Nat) (hok : okStep s (.api (.unsubscribe id topics tag)) = true) :
+    (topics : List Bytes) (tag : Nat) (hok : okStepB s (.api (.unsubscribe id topics tag)) = true) :
     R (step c (.api (.unsubscribe id topics tag))).1 (Mqtt.Spec.Client.step s (.api (.unsubscribe id topics tag))).1 ∧
     EvMatch (Mqtt.Spec.Client.step s (.api (.unsubscribe id topics tag))).2
       (step c (.api (.unsubscribe id topics tag))).2 := by
   have hs : s.connected = true := by rw [← hR.conn]; exact hc
   rw [step_api c hc, spec_step_api s hs]
-  simp only [okStep, Bool.and_eq_true, bne_iff_ne, ne_eq, List.all_eq_true] at hok
+  simp only [okStepB, Bool.and_eq_true, bne_iff_ne, ne_eq, List.all_eq_true] at hok
   obtain ⟨hid, hall⟩ := hok
   have hidb : (id == 0) = false := by simpa using hid
   have hw : apiWrite c (.unsubscribe id topics tag) =
@@ -845,7 +853,7 @@ theorem sim_api_ping (c : C) (s : S) (hR : R c s) (hc : c.connected = true) (tag
   · exact apiRegister_pingsWaiting c (.ping tag) hR.ping.2
 
 theorem sim_api (c : C) (s : S) (hR : R c s) (hc : c.connected = true) (call : Api)
-    (hok : okStep s (.api call) = true) :
+    (hok : okStepB s (.api call) = true) :
     R (step c (.api call)).1 (Mqtt.Spec.Client.step s (.api call)).1 ∧
     EvMatch (Mqtt.Spec.Client.step s (.api call)).2 (step c (.api call)).2 := by
   cases call with
@@ -883,10 +891,10 @@ theorem pubrel_match (c : C) (s : S) (store : List Sub) (hti : TI c.topics store
         obtain ⟨hg, hn, hq⟩ := hok e' (by simp) pb hpb
         exact dispatch_match c s store hti hr pb hg hn hq
 
-theorem sim_peer_publish (c : C) (s : S) (hR : R c s) (pb : Pub) (hok : okStep s (.peer (.publish pb)) = true) :
+theorem sim_peer_publish (c : C) (s : S) (hR : R c s) (pb : Pub) (hok : okStepB s (.peer (.publish pb)) = true) :
     R (peer c (.publish pb)).1 (Mqtt.Spec.Client.peer s (.publish pb)).1 ∧
     EvMatch (Mqtt.Spec.Client.peer s (.publish pb)).2 (peer c (.publish pb)).2 := by
-  simp only [okStep, Bool.and_eq_true, decide_eq_true_eq] at hok
+  simp only [okStepB, Bool.and_eq_true, decide_eq_true_eq] at hok
   obtain ⟨⟨hg, hn⟩, hq⟩ := hok
   obtain ⟨store, hti, hr⟩ := hR.trie
   by_cases h2 : pb.qos = 2
@@ -951,10 +959,10 @@ theorem sim_peer_pubcomp (c : C) (s : S) (hR : R c s) (id : Nat) :
   exact ⟨⟨hR.conn, hR.pub1, hrest, hR.sub, hR.unsub, hR.in2, hR.ping, hR.trie, ⟨hR.good.subs, hR.good.unsubs, hR.good.open2⟩⟩,
     completes_match _ _ hrel⟩
 
-theorem sim_peer_pubrec (c : C) (s : S) (hR : R c s) (id : Nat) (hok : okStep s (.peer (.pubrec id)) = true) :
+theorem sim_peer_pubrec (c : C) (s : S) (hR : R c s) (id : Nat) (hok : okStepB s (.peer (.pubrec id)) = true) :
     R (peer c (.pubrec id)).1 (Mqtt.Spec.Client.peer s (.pubrec id)).1 ∧
     EvMatch (Mqtt.Spec.Client.peer s (.pubrec id)).2 (peer c (.pubrec id)).2 := by
-  simp only [okStep, List.all_eq_true, Bool.or_eq_true, bne_iff_ne, ne_eq, Bool.not_eq_true'] at hok
+  simp only [okStepB, List.all_eq_true, Bool.or_eq_true, bne_iff_ne, ne_eq, Bool.not_eq_true'] at hok
   simp only [peer, Mqtt.Spec.Client.peer]
   refine ⟨⟨hR.conn, hR.pub1, ?_, hR.sub, hR.unsub, hR.in2, hR.ping, hR.trie, ⟨hR.good.subs, hR.good.unsubs, hR.good.open2⟩⟩,
     EvMatch.single _ rfl⟩
@@ -978,10 +986,10 @@ theorem R_of_frame (c0 c' : C) (s' : S) (hf : Frame c0 c') (conn : c0.connected 
   · unfold pingTags PingsWaiting at *; rw [hf.pings]; exact ping
 
 theorem sim_peer_suback (c : C) (s : S) (hR : R c s) (id : Nat) (codes : List Nat)
-    (hok : okStep s (.peer (.suback id codes)) = true) :
+    (hok : okStepB s (.peer (.suback id codes)) = true) :
     R (peer c (.suback id codes)).1 (Mqtt.Spec.Client.peer s (.suback id codes)).1 ∧
     EvMatch (Mqtt.Spec.Client.peer s (.suback id codes)).2 (peer c (.suback id codes)).2 := by
-  simp only [okStep, List.all_eq_true] at hok
+  simp only [okStepB, List.all_eq_true] at hok
   obtain ⟨store, hti, hr⟩ := hR.trie
   have hack := hR.sub.ack tSUBACK id codes terminal_SUBACK
   obtain ⟨hrest, hrel⟩ := hack.acked
@@ -1048,7 +1056,7 @@ theorem sim_peer_pingresp (c : C) (s : S) (hR : R c s) :
       ⟨hR.good.subs, hR.good.unsubs, hR.good.open2⟩⟩, ?_⟩
     exact EvMatch.completeOut tag false
 
-theorem sim_peer (c : C) (s : S) (hR : R c s) (p : Packet) (hok : okStep s (.peer p) = true) :
+theorem sim_peer (c : C) (s : S) (hR : R c s) (p : Packet) (hok : okStepB s (.peer p) = true) :
     R (peer c p).1 (Mqtt.Spec.Client.peer s p).1 ∧ EvMatch (Mqtt.Spec.Client.peer s p).2 (peer c p).2 := by
   cases p with
   | publish pb => exact sim_peer_publish c s hR pb hok
@@ -1068,7 +1076,7 @@ theorem sim_peer (c : C) (s : S) (hR : R c s) (p : Packet) (hok : okStep s (.pee
 
 /-! ### one step; histories -/
 
-theorem step_sim (c : C) (s : S) (hR : R c s) (ev : Ev) (hok : okStep s ev = true) :
+theorem step_sim_basic (c : C) (s : S) (hR : R c s) (ev : Ev) (hok : okStepB s ev = true) :
     R (step c ev).1 (Mqtt.Spec.Client.step s ev).1 ∧ EvMatch (Mqtt.Spec.Client.step s ev).2 (step c ev).2 := by
   cases ev with
   | connect a =>
@@ -1100,7 +1108,41 @@ theorem step_sim (c : C) (s : S) (hR : R c s) (ev : Ev) (hok : okStep s ev = tru
       have hs : s.connected = false := by rw [← hR.conn]; exact hc'
       simp only [step, Mqtt.Spec.Client.step, hc', hs, Bool.not_false, ↓reduceIte]
       exact ⟨hR, EvMatch.nil⟩
-  | apiEarlyAck call ack => simp [okStep] at hok
+  | apiEarlyAck call ack => simp [okStepB] at hok
+
+theorem spec_apiRegister_connected (s : S) (call : Api) :
+    (Mqtt.Spec.Client.apiRegister s call).1.connected = s.connected := by
+  cases call with
+  | publish p tag =>
+    simp only [Mqtt.Spec.Client.apiRegister]
+    by_cases h0 : (p.qos == 0) = true
+    · simp [h0]
+    · by_cases h1 : (p.qos == 1) = true <;> simp [h0, h1]
+  | _ => rfl
+
+/-- the reference client, too, takes the composite event as the call followed by the packet -/
+theorem spec_step_early (s : S) (call : Api) (ack : Packet) :
+    Mqtt.Spec.Client.step s (.apiEarlyAck call ack) =
+      ((Mqtt.Spec.Client.step (Mqtt.Spec.Client.step s (.api call)).1 (.peer ack)).1,
+       (Mqtt.Spec.Client.step s (.api call)).2 ++
+         (Mqtt.Spec.Client.step (Mqtt.Spec.Client.step s (.api call)).1 (.peer ack)).2) := by
+  by_cases hs : s.connected = true
+  · simp [Mqtt.Spec.Client.step, hs, spec_apiRegister_connected]
+  · have hs' : s.connected = false := by simpa using hs
+    simp [Mqtt.Spec.Client.step, hs']
+
+theorem step_sim (c : C) (s : S) (hR : R c s) (ev : Ev) (hok : okStep s ev = true) :
+    R (step c ev).1 (Mqtt.Spec.Client.step s ev).1 ∧ EvMatch (Mqtt.Spec.Client.step s ev).2 (step c ev).2 := by
+  cases ev with
+  | apiEarlyAck call ack =>
+    simp only [okStep, Bool.and_eq_true] at hok
+    obtain ⟨h1, m1⟩ := step_sim_basic c s hR (.api call) hok.1
+    obtain ⟨h2, m2⟩ := step_sim_basic _ _ h1 (.peer ack) hok.2
+    rw [step_early, spec_step_early]
+    exact ⟨h2, m1.append m2⟩
+  | connect a => exact step_sim_basic c s hR _ hok
+  | api call => exact step_sim_basic c s hR _ hok
+  | peer p => exact step_sim_basic c s hR _ hok
 
 /-- the outputs of two histories agree event by event -/
 inductive RunMatch : List (List SOut) → List (List Out) → Prop
